@@ -5729,7 +5729,9 @@ class CodegenCtx:
                 if allocate_on_demand:
                     # only once there is something to store: a buffer that is allocated but never written has no terminator
                     body.add(f"if (!state->c.{action.into_storage.name}) state->c.{action.into_storage.name} = malloc({output_length_expr});")
-                body.add(f"{self._generate_buflike_index_expr(action.into_storage, f'state->{action.into_storage.name}_counter++')} = ({char_type})({target_expression});")
+                # (the stored value may read the counter itself (s += [s.len]): increment in a statement of its own)
+                body.add(f"{self._generate_buflike_index_expr(action.into_storage, f'state->{action.into_storage.name}_counter')} = ({char_type})({target_expression});")
+                body.add(f"state->{action.into_storage.name}_counter++;")
                 if action.into_storage.holds_a(OutputStorageType.STR) and action.into_storage.str_null:
                     body.add(f"{self._generate_buflike_index_expr(action.into_storage, f'state->{action.into_storage.name}_counter')} = 0;")
             result.add("}")
